@@ -767,7 +767,7 @@ PARTS = [
                     "side_neutral_dup", "odd_level_on_path", "via_arg", "via_network", "ntx_1")),
     Part("history", history_case, run_history, 400, 6000, quick_shards=4, thorough_shards=16,
          essential=("has_reorg", "reverify_same_object", "proof:old_block", "proof:genuine", "reorg_len_>1", "reorg_via_ledger",
-                    "verify_via_cached")),
+                    "verify_via_cached", "batch_race")),
     Part("gen", gen_case, run_case, 1500, 30000, quick_shards=4, thorough_shards=16,
          essential=tuple(MUTATIONS) + ("none", "via_arg", "via_network", "odd_level_on_path", "side_neutral",
                                        "side_neutral_dup", "height_out_of_bounds", "hex_case_neutral")),
